@@ -102,6 +102,25 @@ def check_position(model: Model, report: Report, rule: str) -> None:
     report.touched(fn.qualname)
 
 
+def check_no_stale_position(model: Model, report: Report, rule: str) -> None:
+    """position() / __str__ run on every call, or are cached under a key that determines everything they read
+    (effects.cache_key_problem: functools caches key a method on the instance through __eq__/__hash__)."""
+    from .. import effects
+
+    for cq, mname in (("tokens.Token", "position"), ("exceptions.JSONPathError", "__str__")):
+        ci = model.cls(cq)
+        fn = ci.find_method(mname)
+        if fn is None:
+            continue
+        cached = effects.cache_decorators(fn)
+        key = f"{ci.name}.{mname}:fresh-or-faithfully-cached"
+        why = effects.cache_key_problem(model, fn) if cached else None
+        if why:
+            report.fail(rule, fn.qualname, f"{ci.name}.{mname}:cache-key", f"{ci.name}.{mname} is cached with @{cached[0]} and {why}, so a later error can be reported with the line/column computed for another query text", file=fn.file, line=fn.line)
+        else:
+            report.ok(rule, fn.qualname, key, detail={"cache": cached})
+
+
 def check_str(model: Model, report: Report, rule: str) -> None:
     eci = model.cls("exceptions.JSONPathError")
     fn = eci.find_method("__str__")
@@ -307,7 +326,13 @@ def check(model: Model, report: Report) -> None:
     report.rule("R19.4", "str(error) appends the (line, column) pair of position() unchanged")
     report.assumptions += ["A1: str.count/rfind with (sub, start, end) semantics; line breaks are LF"]
     report.not_decided += ["that the token chosen for an error is the most helpful one; only that its offset lies in the query and is rendered faithfully"]
+    from . import _pipeline
+
+    report.rule("R19.6", "the query a token refers to is the caller's text itself: tokenize() hands the unmodified string to the lexer, which stores it unchanged and starts at offset 0")
+    _pipeline.check_tokenize_setup(model, report, "R19.6")
     check_position(model, report, "R19.1")
+    report.rule("R19.7", "position() and str(error) are evaluated on the token at hand: uncached, or cached under a key (__eq__/__hash__) that covers every attribute they read")
+    check_no_stale_position(model, report, "R19.7")
     check_token_sites(model, report, "R19.2")
     check_raise_sites(model, report, "R19.3")
     check_str(model, report, "R19.4")
